@@ -7,6 +7,8 @@ package ep
 import (
 	"bytes"
 	"context"
+	"encoding/base64"
+	"errors"
 	"fmt"
 	"net"
 	"sort"
@@ -15,6 +17,7 @@ import (
 
 	"github.com/foxcpp/go-mockdns"
 	"github.com/foxcpp/maddy/framework/config"
+	"github.com/foxcpp/maddy/framework/exterrors"
 	"github.com/foxcpp/maddy/framework/log"
 	"github.com/foxcpp/maddy/framework/module"
 	smtpendp "github.com/foxcpp/maddy/internal/endpoint/smtp"
@@ -60,6 +63,9 @@ type cTx struct {
 	NoReset   bool // no accepted recipient: go on with the next MAIL without DATA/RSET
 	Pause     bool // the client idles 6 s (longer than the limit time-out) before the body
 	Chunks    int  // 0: DATA; n>0: BDAT in n chunks
+	AuthAt    int  // 0: no AUTH in this transaction; 1 before MAIL, 2 after MAIL, 3 after the RCPTs
+	AuthKind  int  // see authGood...
+	AuthReply actors.Reply
 	BdatEnd   int
 	Payload   []byte
 
@@ -74,9 +80,49 @@ type cTx struct {
 	Done        bool
 }
 
+// kinds of AUTH exchanges a client performs
+const (
+	authGood    = iota // PLAIN, accepted by the provider
+	authBad            // PLAIN, unknown credentials
+	authTemp           // PLAIN, the provider fails temporarily
+	authGarbage        // PLAIN with an initial response that is not base64
+	authCancel         // LOGIN, cancelled with "*" after the first challenge
+	authLogin          // LOGIN, accepted
+	nAuthKinds
+)
+
+// scriptedAuth is the credentials provider of the endpoint (module.PlainAuth):
+// the password decides the result.
+type scriptedAuth struct {
+	calls int
+}
+
+func (a *scriptedAuth) Init(*config.Map) error { return nil }
+func (a *scriptedAuth) Name() string           { return "scripted_auth" }
+func (a *scriptedAuth) InstanceName() string   { return "authp" }
+func (a *scriptedAuth) SimLabel() string       { return "authp" }
+func (a *scriptedAuth) AuthPlain(user, pass string) error {
+	simrt.Point("auth:authp", "plain")
+	a.calls++
+	switch pass {
+	case "good":
+		return nil
+	case "temp":
+		if s := simrt.Cur(); s != nil {
+			s.Stat("fault_auth_provider_temporary")
+		}
+		return exterrors.WithTemporary(errors.New("scripted provider failure "+actors.SecretMarker), true)
+	}
+	return module.ErrUnknownCredentials
+}
+
 type client struct {
 	name string
 	ip   string
+	// AuthFirst: authenticate right after the greeting (kind in AuthKind)
+	AuthFirst bool
+	AuthKind  int
+	AuthReply actors.Reply
 	txs  []*cTx
 	helo actors.Reply
 	done bool
@@ -90,6 +136,8 @@ type world struct {
 	limitN   int
 	limScope string
 	family   int
+	authMode int // 0: no provider; 1: provider, authentication optional; 2: submission endpoint
+	authp    *scriptedAuth
 	tgts     map[string]*actors.ScriptedTarget
 	plans    map[string][]*actors.StagePlan
 	checks   []*actors.ScriptedCheck
@@ -263,6 +311,24 @@ func (w *world) build() error {
 	if w.lmtp {
 		name = "lmtp"
 	}
+	// a credentials provider: AUTH becomes one more command of the session; on
+	// a submission endpoint MAIL is refused before it and the header is vetted
+	// before the body reaches a target
+	switch s.T.Choose(st, 4) {
+	case 0:
+		w.authMode = 1
+	case 1:
+		if !w.lmtp {
+			w.authMode = 2
+			name = "submission"
+		}
+	}
+	if w.authMode > 0 {
+		w.authp = &scriptedAuth{}
+		module.RegisterInstance(w.authp, nil)
+		delete(module.Initialized, "authp")
+		cfg = append(cfg, node("auth", "&authp"), node("sasl_login", "yes"))
+	}
 	mod, err := smtpendp.New(name, nil)
 	if err != nil {
 		return err
@@ -329,6 +395,13 @@ func (w *world) genClients() {
 	for i := 0; i < nc; i++ {
 		c := &client{name: fmt.Sprintf("cl%d", i+1), ip: fmt.Sprintf("198.51.100.%d:4%d000", 1+i, i)}
 		ntx := 1 + s.T.Choose(st, 3)
+		if w.authMode > 0 {
+			c.AuthFirst = s.T.Choose(st, 4) != 0
+			c.AuthKind = authGood
+			if s.T.Choose(st, 4) == 0 {
+				c.AuthKind = s.T.Choose(st, nAuthKinds)
+			}
+		}
 		for j := 0; j < ntx; j++ {
 			tx := &cTx{Marker: fmt.Sprintf("%s-%d", c.name, j+1)}
 			tx.UTF8 = s.T.Choose(st, 3) == 0
@@ -355,7 +428,15 @@ func (w *world) genClients() {
 				tx.Chunks = 1 + s.T.Choose(st, 3)
 				tx.BdatEnd = []int{bdatComplete, bdatComplete, bdatComplete, bdatZeroLast, bdatDataMid, bdatRset, bdatDisconnect, bdatQuit}[s.T.Choose(st, 8)]
 			}
+			if w.authMode > 0 && s.T.Choose(st, 3) == 0 {
+				tx.AuthAt = 1 + s.T.Choose(st, 3)
+				tx.AuthKind = s.T.Choose(st, nAuthKinds)
+			}
 			body := "Subject: sim " + tx.Marker + "\r\nX-Sim-Tx: " + tx.Marker + "\r\n"
+			if w.authMode == 2 && s.T.Choose(st, 4) != 0 {
+				// (a submission endpoint refuses a message without From)
+				body = "From: <sender@origin.example>\r\n" + body
+			}
 			if s.T.Choose(st, 8) == 0 {
 				body += "TLS-Required: No\r\n"
 			}
@@ -386,8 +467,19 @@ func (w *world) runClient(c *client) {
 		hello = "LHLO client.example"
 	}
 	c.helo = cl.Cmd(hello)
+	if c.AuthFirst {
+		c.AuthReply = w.doAuth(cl, c.name, c.AuthKind)
+		if c.AuthReply.Err != "" {
+			return
+		}
+	}
 	stale := 0 // recipients of transactions abandoned by a repeated LHLO
 	for _, tx := range c.txs {
+		if tx.AuthAt == 1 {
+			if tx.AuthReply = w.doAuth(cl, c.name, tx.AuthKind); tx.AuthReply.Err != "" {
+				return
+			}
+		}
 		mail := "MAIL FROM:<" + tx.From + ">"
 		if tx.UTF8 {
 			mail += " SMTPUTF8"
@@ -396,10 +488,21 @@ func (w *world) runClient(c *client) {
 		if tx.MailReply.Err != "" {
 			return
 		}
+		if tx.AuthAt == 2 {
+			// (RFC 4954 forbids AUTH inside a transaction; go-smtp runs it)
+			if tx.AuthReply = w.doAuth(cl, c.name, tx.AuthKind); tx.AuthReply.Err != "" {
+				return
+			}
+		}
 		for _, r := range tx.Rcpts {
 			rr := cl.Cmd("RCPT TO:<" + r + ">")
 			tx.RcptReplies = append(tx.RcptReplies, rr)
 			if rr.Err != "" {
+				return
+			}
+		}
+		if tx.AuthAt == 3 {
+			if tx.AuthReply = w.doAuth(cl, c.name, tx.AuthKind); tx.AuthReply.Err != "" {
 				return
 			}
 		}
@@ -449,7 +552,7 @@ func (w *world) runClient(c *client) {
 		}
 		if tx.Pause {
 			s.Stat("client_pause_mid_transaction")
-			time.Sleep(6 * time.Second)
+			simrt.Sleep(6 * time.Second)
 			simrt.Yield("client:paused")
 		}
 		// (without an accepted recipient go-smtp refuses BDAT before reading the
@@ -609,6 +712,37 @@ func (w *world) runClient(c *client) {
 	conn.Close()
 }
 
+// doAuth performs one AUTH exchange and returns its last reply.
+func (w *world) doAuth(cl *actors.SMTPClient, name string, kind int) actors.Reply {
+	w.s.Stat("client_auth")
+	b64 := func(s string) string { return base64.StdEncoding.EncodeToString([]byte(s)) }
+	switch kind {
+	case authGood:
+		return cl.Cmd("AUTH PLAIN " + b64("\x00"+name+"\x00good"))
+	case authBad:
+		return cl.Cmd("AUTH PLAIN " + b64("\x00"+name+"\x00bad"))
+	case authTemp:
+		return cl.Cmd("AUTH PLAIN " + b64("\x00"+name+"\x00temp"))
+	case authGarbage:
+		return cl.Cmd("AUTH PLAIN ***")
+	case authCancel:
+		r := cl.Cmd("AUTH LOGIN")
+		if r.Code == 334 {
+			r = cl.Cmd("*")
+		}
+		return r
+	default:
+		r := cl.Cmd("AUTH LOGIN")
+		if r.Code == 334 {
+			r = cl.Cmd(b64(name))
+		}
+		if r.Code == 334 {
+			r = cl.Cmd(b64("good"))
+		}
+		return r
+	}
+}
+
 // Run is the world function for C03 (and the endpoint parts of C11/C16).
 func Run(s *simrt.Sim, a *harness.Args, r *harness.Result) {
 	log.DefaultLogger.Out = log.NopOutput{}
@@ -691,10 +825,13 @@ func Run(s *simrt.Sim, a *harness.Args, r *harness.Result) {
 
 func (w *world) shape() string {
 	var sb strings.Builder
-	fmt.Fprintf(&sb, "lmtp=%v defer=%v lim=%d fam=%d chk=%d mod=%v|", w.lmtp, w.deferRj, w.limitN, w.family, len(w.checks), w.mod != nil)
+	fmt.Fprintf(&sb, "lmtp=%v defer=%v lim=%d fam=%d chk=%d mod=%v auth=%d|", w.lmtp, w.deferRj, w.limitN, w.family, len(w.checks), w.mod != nil, w.authMode)
 	for _, c := range w.clients {
+		if c.AuthFirst {
+			fmt.Fprintf(&sb, "[%s auth=%d]", c.name, c.AuthKind)
+		}
 		for _, tx := range c.txs {
-			fmt.Fprintf(&sb, "[%s f=%q u=%v r=%d e=%d b=%d/%d]", c.name, tx.From, tx.UTF8, len(tx.Rcpts), tx.Ending, tx.Chunks, tx.BdatEnd)
+			fmt.Fprintf(&sb, "[%s f=%q u=%v r=%d e=%d b=%d/%d a=%d/%d]", c.name, tx.From, tx.UTF8, len(tx.Rcpts), tx.Ending, tx.Chunks, tx.BdatEnd, tx.AuthAt, tx.AuthKind)
 		}
 	}
 	return sb.String()
@@ -955,9 +1092,27 @@ func (w *world) oracleC16() {
 			}
 		}
 	}
+	// AUTH: credentials the provider does not know are a permanent failure
+	// (RFC 4954: 535), a provider that cannot answer is a temporary one (454)
+	checkAuth := func(kind int, r actors.Reply) {
+		check("AUTH", false, r)
+		if r.Err != "" || r.Code == 0 {
+			return
+		}
+		switch {
+		case kind == authBad && r.Code/100 == 4:
+			s.Violate("C16/retry-class-mismatch/AUTH/rejected-credentials", "credentials the provider rejected (a permanent failure) were answered %s", r.String())
+		case kind == authTemp && r.Code == 535:
+			s.Violate("C16/retry-class-mismatch/AUTH/provider-failure", "a temporary failure of the credentials provider was answered %s", r.String())
+		}
+	}
 	for _, c := range w.clients {
 		desynced := false
+		checkAuth(c.AuthKind, c.AuthReply)
 		for _, tx := range c.txs {
+			if !desynced {
+				checkAuth(tx.AuthKind, tx.AuthReply)
+			}
 			if desynced {
 				// LMTP after a repeated LHLO mid-transaction: go-smtp still
 				// answers for (and names) the abandoned transaction's
